@@ -209,3 +209,32 @@ package selftest
 //@ func BadClosedIface
 //@   requires !isnil(o) && !isnil(i) && !isnil(b)
 //@   ensures result == 1
+
+//@ ghost stFlushedAt int
+
+//@ func (*saver).flush
+//@   noinline
+
+//@ func (*saver).GoodDrain
+//@   requires !isnil(s) && ptrint(s.q) != ptrint(done) && $stFlushedAt == recvcount(s.q)
+//@   loop 0 invariant $stFlushedAt == recvcount(s.q)
+//@   callsite flush: $stFlushedAt := recvcount(s.q)
+//@   ensures $stFlushedAt == recvcount(s.q)
+
+//@ func (*saver).BadDrain
+//@   requires !isnil(s) && ptrint(s.q) != ptrint(done) && $stFlushedAt == recvcount(s.q)
+//@   loop 0 invariant $stFlushedAt == recvcount(s.q)
+//@   callsite flush: $stFlushedAt := recvcount(s.q)
+//@   ensures $stFlushedAt == recvcount(s.q)
+
+//@ func GoodCaptured$1
+//@   requires !isnil(c)
+//@   ensures c.v == 5
+
+//@ func GoodCaptured
+//@   requires !isnil(o)
+
+// the captured variable is reassigned inside the closure: its old value's field is not what was written
+//@ func mkCapturedBad$1
+//@   requires !isnil(c) && !isnil(p)
+//@   ensures old(c).v == 5
